@@ -294,14 +294,35 @@ Fixpoint wrun (pend : bytes) (ops : list op) (tr : list (res * list ev)) : bool 
   end.
 
 (* ------------------------------------------------------------------ *)
-(* wire.  input = (size (op ...) (outcome ...));  op = (0 #bytes) | (1) | (2) | (3);
+(* wire.  input = (size (op ...) (outcome ...));  op = (0 bytes) | (1) | (2) | (3);
+   bytes = #hex | (#b n #b n ...) (run-length form, used above 256 bytes);
    outcome = (short err), short = -1 for "takes everything".
    observation = (((res (ev ...)) ...) alive (live ...)); res = (0 n e) | (1 e) | (2 d) | (3 e);
-   ev = (0 #p n) | (1); live = one flag per operation (flush goroutine present after it returned;
+   ev = (0 bytes n) | (1); live = one flag per operation (flush goroutine present after it returned;
    empty in mode 1). *)
+(* byte strings on the wire: up to [rle_min] bytes literally (#hex); longer ones run-length encoded
+   as a flat list (#b n #b n ...) of maximal runs of one byte, so that histories over buffer sizes of
+   several hundred KiB stay small.  The decoder accepts both forms for any length; the encoder
+   (observations: the canonical-form check of [spec]) picks the form by the length alone. *)
+Definition run_byte (s : sx) : byte := match sx_b s with x :: _ => x | [] => x00 end.
+Fixpoint unrle (l : list sx) : bytes :=
+  match l with
+  | b :: n :: r => repeat (run_byte b) (sx_n n) ++ unrle r
+  | _ => []
+  end.
+Definition sx_rb (s : sx) : bytes := match s with SL l => unrle l | _ => sx_b s end.
+Fixpoint rle_go (b : byte) (n : nat) (p : bytes) : list sx :=
+  match p with
+  | [] => [SB [b]; of_nat n]
+  | x :: r => if Byte.eqb x b then rle_go b (S n) r else SB [b] :: of_nat n :: rle_go x 1 r
+  end.
+Definition rle (p : bytes) : list sx := match p with [] => [] | x :: r => rle_go x 1 r end.
+Definition rle_min : nat := 256.
+Definition enc_bytes (p : bytes) : sx := if length p <=? rle_min then SB p else SL (rle p).
+
 Definition dec_op (s : sx) : op :=
   match sx_z (sx_nth s 0) with
-  | 0%Z => Write (sx_b (sx_nth s 1))
+  | 0%Z => Write (sx_rb (sx_nth s 1))
   | 1%Z => Sync
   | 2%Z => Tick
   | _ => Stop
@@ -313,7 +334,7 @@ Definition dec_case (i : sx) : Z * list op * sk :=
   (sx_z (sx_nth i 0), map dec_op (sx_l (sx_nth i 1)), map dec_out (sx_l (sx_nth i 2))).
 
 Definition enc_ev (e : ev) : sx :=
-  match e with EW p n => SL [SZ 0; SB p; of_nat n] | ES => SL [SZ 1] end.
+  match e with EW p n => SL [SZ 0; enc_bytes p; of_nat n] | ES => SL [SZ 1] end.
 Definition enc_res (r : res) : sx :=
   match r with
   | RW n e => SL [SZ 0; of_nat n; of_nat e]
@@ -326,7 +347,7 @@ Definition enc_tr (tr : list (res * list ev)) : sx :=
 
 Definition dec_ev (s : sx) : ev :=
   match sx_z (sx_nth s 0) with
-  | 0%Z => EW (sx_b (sx_nth s 1)) (sx_n (sx_nth s 2))
+  | 0%Z => EW (sx_rb (sx_nth s 1)) (sx_n (sx_nth s 2))
   | _ => ES
   end.
 Definition dec_res (s : sx) : res :=
